@@ -464,3 +464,39 @@ def resolve_prop(repo, cls, s):
                     return d
         return m.group(0)
     return re.sub(r"\bself\.(\w+)\b(?!\()", rep, s)
+
+
+def alts_deep(e, limit=32):
+    """distribute nested __phi__(...) nodes: list of phi-free alternatives of an expanded expression."""
+    out, todo = [], [e]
+    while todo and len(out) + len(todo) <= limit * 4:
+        x = todo.pop()
+        phi = None
+        for c in ast.walk(x):
+            if isinstance(c, ast.Call) and call_name(c) == "__phi__":
+                phi = c
+                break
+        if phi is None:
+            out.append(x)
+            continue
+        for a in phi.args:
+            todo.append(_replace_first_phi(x, a))
+    uniq, seen = [], set()
+    for a in out:
+        k = ast.dump(a)
+        if k not in seen:
+            seen.add(k)
+            uniq.append(a)
+    return uniq
+
+
+def _replace_first_phi(x, repl):
+    done = [False]
+
+    class T(ast.NodeTransformer):
+        def visit_Call(self, n):
+            if not done[0] and call_name(n) == "__phi__":
+                done[0] = True
+                return copy.deepcopy(repl)
+            return self.generic_visit(n)
+    return T().visit(copy.deepcopy(x))
